@@ -231,11 +231,23 @@ func c18Mix(w *core.WorkerCtx, target *c18Node, feeders []*c18Node, users []*led
 		for !stop.Load() {
 			i++
 			c := newCountCtx(1 + i%37)
-			switch i % 3 {
+			switch i % 4 {
 			case 0:
 				target.book.CalculateBalance(c, users[i%len(users)].Addr)
 			case 1:
 				target.book.ReadDAGTransactionsByAddress(c, users[i%len(users)].Addr)
+			case 2:
+				// a history read given up after 50-250 microseconds, the result looked at all the same
+				cc, cancel := context.WithCancel(ctx)
+				d := time.Duration(50+i%200) * time.Microsecond
+				go func() { time.Sleep(d); cancel() }()
+				trxs, err := target.book.ReadDAGTransactionsByAddress(cc, users[i%len(users)].Addr)
+				if err == nil {
+					for k := range trxs {
+						_ = trxs[k].Hash
+					}
+				}
+				cancel()
 			default:
 				cc, cancel := context.WithCancel(ctx)
 				d := time.Duration(50+i%200) * time.Microsecond
